@@ -901,6 +901,7 @@ class Element(object):
                     children = value
                     value = ElementList(self)
                 previous = self.__dict__.get('children')
+                previous_last_index = self.__dict__.get('_last_child_index')
                 super(Element, self).__setattr__(name, value)
                 try:
                     for c in children:
@@ -911,6 +912,9 @@ class Element(object):
                         for c in value.list:
                             c._parent = None
                         super(Element, self).__setattr__(name, previous)
+                        if previous_last_index is not None:
+                            # a segment also forgets the field positions opened by the refused children
+                            super(Element, self).__setattr__('_last_child_index', previous_last_index)
                     raise
             else:
                 super(Element, self).__setattr__(name, value)
